@@ -286,7 +286,13 @@ impl VM {
             match self.next() {
                 OpCode::Const => {
                     let idx = self.read_u16();
-                    let value = constants[idx as usize];
+                    let mut value = constants[idx as usize];
+
+                    // Strings can be modified in place (s[0] = "x"): every evaluation of a string literal
+                    // gets its own copy, so that the literal itself (shared by all its occurrences) never changes
+                    if value.tag() == Type::String {
+                        value = Object::string(value.as_str(), gc);
+                    }
                     self.push(value);
                 }
                 OpCode::SetGlobal => {
